@@ -25,12 +25,13 @@ def observe(binary, root, src, paths=("run", "exec"), timeout=10, trace=False, f
     """Run one program (single source `src`, or a project `files` name->source with entry module)
     through the requested paths. Returns list of observation dicts."""
     d = _slot(root)
-    for f in d.iterdir():
+    for f in list(d.rglob("*")):
         if f.is_file():
             f.unlink()
     if files is None:
         files = {"main": src}
-    for name, text in files.items():
+    for name, text in files.items():        # a name may carry a directory (`sub/m3`)
+        (d / f"{name}.ms").parent.mkdir(parents=True, exist_ok=True)
         (d / f"{name}.ms").write_text(text)
     obs = []
     compile_rejected = False
@@ -39,7 +40,7 @@ def observe(binary, root, src, paths=("run", "exec"), timeout=10, trace=False, f
         tr = d / f"{p}.trace.ndjson"
         if trace:
             env = dict(MSCRIPT_VERIF_TRACE=str(tr), MSCRIPT_VERIF_TRACE_INS="0")
-        for f in d.glob("*.mmm"):
+        for f in d.rglob("*.mmm"):
             f.unlink()
         if p == "run":
             r = C.run_proc([binary, "run", f"{entry}.ms", "-q"], cwd=d, timeout=timeout, env=env)
@@ -139,7 +140,7 @@ def run_cases(binary, work, cases, paths=("run", "exec"), tlc_workers=12, tlc_ti
 
     def one(c):
         if "mods" in c["prog"]:
-            files = {m["name"]: render.program(json.loads(json.dumps(m["body"]))) for m in c["prog"]["mods"]}
+            files = {m.get("dir", "") + m["name"]: render.program(json.loads(json.dumps(m["body"]))) for m in c["prog"]["mods"]}
             entry = c["prog"]["mods"][c["prog"]["entry"] - 1]["name"]
             src = "".join(f"### {n}.ms\n{t}" for n, t in files.items())
             obs, rej = observe(binary, root, src, paths, trace=trace, files=files, entry=entry)
